@@ -59,6 +59,8 @@ struct Run
   int slowlog = 0;
   int connect = 0;
   int templog = 0;
+  int lazycomp = 0;   // the wrapped component does not look up the runtime itself (a hand-written component need not)
+  int idquery = 0;    // ask for the client identifiers after this many registrations (0 = only at the end)
   std::vector<TaskSpec> tasks;
   std::map<std::pair<int, int>, std::vector<Script>> scripts;
 };
@@ -205,6 +207,16 @@ static bool is_unbound(int side, int ev, int client)
   for (auto& u : g_run.unbinds)
     if (u.side == side && u.ev == ev && (u.client == client || u.client < 0)) return true;
   return false;
+}
+
+dzn::runtime& component_runtime(const dzn::locator& loc)
+{
+  // A Dezyne-generated component looks the runtime up in its constructor (and so fails on a locator without one); a
+  // hand-written component need not.  In the 'lazy' variant the shell's own facility checks are all there is.
+  if (!g_run.lazycomp) return loc.get<dzn::runtime>();
+  alignas(dzn::runtime) static unsigned char fallback[sizeof(dzn::runtime)];   // never used, never constructed (no record)
+  dzn::runtime* r = loc.try_get<dzn::runtime>();
+  return r ? *r : *reinterpret_cast<dzn::runtime*>(fallback);
 }
 
 void component_constructed(void* comp, const dzn::locator& loc)
@@ -527,7 +539,16 @@ static void execute_run(int out_fd)
       if (pd.sem == 3) continue;
       if (pd.sem == 2)
       {
-        for (int k = 0; k < R.n_clients; ++k) g_outer_obj[pi].push_back(pd.outer(g_shell, R.client_names[static_cast<size_t>(k)]));
+        for (int k = 0; k < R.n_clients; ++k)
+        {
+          g_outer_obj[pi].push_back(pd.outer(g_shell, R.client_names[static_cast<size_t>(k)]));
+          if (R.idquery == k + 1 && k + 1 < R.n_clients)
+          {  // a user (diagnostics, logging) may ask for the identifiers at any time during registration
+            std::string early;
+            for (auto& s : g_model.shell.client_ids(g_shell, static_cast<int>(pi))) early += (early.empty() ? "" : ",") + s;
+            rec("client_ids_early port=" + std::to_string(pi) + " after=" + std::to_string(k + 1) + " ids=" + (early.empty() ? "-" : early));
+          }
+        }
         {
           // every registered client got its own port object
           bool distinct = true;
@@ -734,6 +755,8 @@ static bool parse_run(const std::vector<std::string>& lines, Run& R)
     else if (kw == "SLOWLOG") is >> R.slowlog;
     else if (kw == "CONNECT") is >> R.connect;
     else if (kw == "TEMPLOG") is >> R.templog;
+    else if (kw == "LAZYCOMP") is >> R.lazycomp;
+    else if (kw == "IDQUERY") is >> R.idquery;
     else if (kw == "TASK")
     {
       TaskSpec t;
